@@ -48,11 +48,22 @@ fn rand_bytes(rng: &mut Rng, pal: &[u8], n: usize) -> Vec<u8> {
 }
 
 pub fn gen_patterns(rng: &mut Rng, pal: &[u8], huge_ok: bool) -> Vec<Vec<u8>> {
-    let maxl = *rng.pick(&[1usize, 2, 2, 3, 3, 4, 4, 6, 8, 12, 20, 40]);
-    let n = match rng.weighted(&[30, 50, 20, if huge_ok { 1 } else { 0 }]) {
+    gen_patterns_ext(rng, pal, huge_ok, huge_ok)
+}
+
+/// `many_ok`: 13-300 patterns may be drawn; `long_ok`: lengths around 100 / 256 may be drawn.
+pub fn gen_patterns_ext(rng: &mut Rng, pal: &[u8], many_ok: bool, long_ok: bool) -> Vec<Vec<u8>> {
+    // mostly short patterns; occasionally lengths around 100 and around the u8 boundary
+    let maxl = if long_ok && rng.chance(1, 40) {
+        *rng.pick(&[100usize, 255, 256, 257, 300])
+    } else {
+        *rng.pick(&[1usize, 2, 2, 3, 3, 4, 4, 6, 8, 12, 20, 40])
+    };
+    let n = match rng.weighted(&[300, 500, 200, if many_ok { 15 } else { 0 }, if many_ok { 10 } else { 0 }]) {
         0 => 1,
         1 => rng.range(2, 4),
         2 => rng.range(5, 12),
+        3 => rng.range(13, 99),
         _ => rng.range(100, 300),
     };
     let fam = rng.weighted(&[40, 15, 15, 10, 8, 12]);
